@@ -95,4 +95,14 @@ PROPS["C06"] = {
     "nontrivial_min_tokens": 40, "sub_max_len": 20000,
 }
 
+_STORE_NOTE = "Trusted: as C05; gzip and the file system are modelled (a segment file is complete / broken / missing; no fsync or power-loss semantics); goroutine interleavings of the per-segment searches are serialised in segment-list order by the verif handler. The vector template is the flat index (the store's aliasing is kind-independent)."
+PROPS["C08"] = {
+    "level_text": "A faithful Gallina model of the store as it is (one triple of template states shared by every memtable and every segment load, frozen-only flush, swap-remove segment manager, compaction over the shared triple) is compared search by search with the real store AND with the specification (one hybrid index holding the acknowledged live documents). The property is REFUTED on the faithful model by a theorem with a five-step witness; the check reproduces it as a KNOWN-FINDING and reports any behaviour that differs from the faithful model as a violation. Proved to hold: segment ids are never reused by flush/compaction.",
+    "level_note": _STORE_NOTE,
+    "correspondence": "storage*.go ~ Model.Store (checker 800, incl. structure observations: segment ids / cached flags / memtable count)",
+    "nontrivial_min_tokens": 60, "sub_max_len": 30000, "sub_per_checker": 4, "gen_timeout": 1500,
+}
+PROPS["C09"] = dict(PROPS["C08"], level_text="As C08 with 1..4 open/close sessions and reopening with fresh templates: durability after Flush/Close is REFUTED on the faithful model (theorem + witness add;Close;reopen;search), reproduced as a KNOWN-FINDING; 'segment identifiers are never reused' is proved for flush and compaction (invariant: all ids <= counter, pairwise distinct) and the reopen counter is the maximum id of any file name.")
+PROPS["C09"]["correspondence"] = "storage.go/storage_provider.go/storage_segment.go ~ Model.Store (reopen = open_store over the directory listing)"
+
 NOT_YET = {}
